@@ -5,7 +5,7 @@
    generateReflectionType (scan of AllMessagesByPtr for the message's full name). Go map iteration = any permutation.
    The driver runs gen_outcome against the plugin's answer to 19 features= strings and msg_index against the index
    found in the emitted sources; the runner byte-compares repeated process runs, permutations and subsets. *)
-From CP Require Import Bytes GenNames GenOrder GenOrderProofs GoFun GenProg GenProgProofs.
+From CP Require Import Bytes GenNames GenOrder GenOrderProofs GoFun GenProg GenProgProofs GenProg2 GenProg2Proofs.
 From Coq Require Import Permutation.
 Local Open Scope N_scope.
 
@@ -71,3 +71,30 @@ Example genprog_order_example :
   run (@rev _) gpp_isort [s_all] = Some [GpvSlice [GpvFeat s_fastf; GpvFeat s_protoc]; GpvErr None] /\
   run (fun m => m) gpp_isort [s_fastf; s_md] = Some [GpvSlice []; GpvErr (Some (s_unknown_feature, [s_md]))].
 Proof. vm_compute. repeat split; reflexivity. Qed.
+
+(* ---- translator tie, third file (task T21, Model/GenProg2.v): generator/generator.go -------------------------------------------------
+   NewGenerator and Generator.GenerateFile, which Model/GenProg.v gives the meaning of GenOrder.v (GpxNewGenerator / GpxGenerateFile),
+   are themselves re-translated on every check (engine "genprog", GENPROG generator … lines) and compared with canon_generator_go.
+   For EVERY findFeatures [ff], EVERY boolean result of the (opaque) feature bodies [feat_gen], every list of files and every list of
+   files to generate: NewGenerator hands the error of findFeatures on, else GenerateFile on each file in turn returns false without
+   calling any feature when the file is not proto3, else calls GenerateFile of every feature in the order findFeatures gave, returns
+   "some feature said generated", and calls GenerateHelpers of a feature that said so once per (import path, feature index). *)
+Theorem generator_go_prog_correct : GenProg2.generator_go_prog_stmt.
+Proof. exact GenProg2Proofs.generator_go_prog_correct. Qed.
+
+(* in GenOrder.v's words (findFeatures = GenOrder.find_features, tied to the translated findFeatures by find_features_prog_correct):
+   a file is emitted iff it is proto3 and GenOrder.generated (find_features names); the features run on every proto3 file in the
+   SORTED order of find_features, file by file; an unknown feature is the error *)
+Theorem generator_go_genorder : GenProg2.generator_go_genorder_stmt.
+Proof. exact GenProg2Proofs.generator_go_genorder. Qed.
+
+(* non-vacuity: protoc+fast on (proto3, proto2, proto3 with the same import path): sorted order fast, protoc; the proto2 file skipped;
+   the helpers of `fast` made once for the shared import path *)
+Example generator_go_example :
+  let f3 := {| fi_generate := true; fi_proto3 := true; fi_prefix := s_fastf; fi_import := s_all; fi_pkg := s_all; fi_msgs := [] |} in
+  let f2 := {| fi_generate := true; fi_proto3 := false; fi_prefix := s_fastf; fi_import := s_all; fi_pkg := s_all; fi_msgs := [] |} in
+  g2_run_all canon_generator_go [f3; f2; f3] find_features g2_default_feat_gen [s_protoc; s_fastf] [0; 1; 2]%nat
+  = Some (Some ([true; false; true],
+                [EvGenerateFile s_fastf 0; EvHelpers s_fastf; EvGenerateFile s_protoc 0; EvGenerateFile s_fastf 2; EvGenerateFile s_protoc 2]%nat))
+  /\ g2_run_all canon_generator_go [f3] find_features g2_default_feat_gen [s_protoc; s_all ++ s_all] [0]%nat = Some None.
+Proof. vm_compute. split; reflexivity. Qed.
